@@ -5,6 +5,16 @@ NOTES = ("Every check runs: translator -> lake build of the property's theorem m
          "the hook can record the value actually returned (no line is deleted, behaviour is unchanged).")
 NOT_YET = {}
 CLAIMS = {
+    "C05": {
+        "text": "Machine-checked Lean theorems for every start/continuation map, word (valid UTF-8 or not), length limit and fallback: "
+                "encoder loop = greedy longest-match-first specification (wordpiece_eq_greedy), atomic failure (failure_is_atomic, "
+                "failWord_shape), guards, and greedy_spells (tokens tile the word). Model tied to src/encoder/wordpiece.rs by "
+                "differential runs on exhaustive short words, random long words and the shipped BERT/GTE vocabularies.",
+        "design_ref": "DESIGN.md §6 C05",
+        "note": "Trusted: Lean kernel + {propext, Classical.choice, Quot.sound}; harness generators; the vocabulary split by prefix "
+                "(WordPiece::new) is modelled and tied by correspondence, not proved from the hash-map construction.",
+        "technique": "Lean 4 proof over executable model + differential correspondence with the Rust implementation",
+    },
     "C08": {
         "text": "Machine-checked Lean theorems, for every id sequence, decoder map, mode and prefix: decode = flatMap of id bytes "
                 "(decode_direct_eq_flatMap), homomorphism (decode_append), first invalid id (decode_error_first_invalid), totality "
